@@ -680,6 +680,32 @@ func resetJustBefore(call *ssa.Call, addr ssa.Value) bool {
 			same = ok1 && ok2 && fa1.Field == fa2.Field && fa1.X == fa2.X
 		}
 		if !same {
+			// a store into a part of the place (a field of it, an element) after the reset: filled in again
+			// (`*p = T{Headers: p.Headers}` is built in place: zero store, then the field stores)
+			part := st.Addr
+			for part != nil && !same {
+				switch x := part.(type) {
+				case *ssa.FieldAddr:
+					part = x.X
+				case *ssa.IndexAddr:
+					part = x.X
+				default:
+					part = nil
+				}
+				if part == addr {
+					same = true
+				}
+				if fa1, ok1 := part.(*ssa.FieldAddr); ok1 {
+					if fa2, ok2 := addr.(*ssa.FieldAddr); ok2 && fa1.Field == fa2.Field && fa1.X == fa2.X {
+						same = true
+					}
+				}
+			}
+			if same {
+				if k, isK := st.Val.(*ssa.Const); !isK || !(k.Value == nil || isZeroConst(k)) {
+					reset = nil
+				}
+			}
 			continue
 		}
 		reset = nil
